@@ -36,6 +36,9 @@ pub enum Kind {
     ForeignOwner,
     /// genuinely signed by an authorised actor, entry larger than the size limit
     Oversized,
+    /// genuinely signed by an authorised actor for a register with another meta, then RE-ADDRESSED to this
+    /// register (address field rewritten, signature kept): what a peer that observed the op elsewhere can forge
+    Readdressed,
 }
 
 #[derive(Serialize, Deserialize, Clone, Copy, Debug, PartialEq, Eq)]
@@ -200,6 +203,7 @@ fn gen_small(rng: &mut Rng, ctx: &GenCtx) -> Plan {
         if rng.chance(1, 2) { rng.range(1, 3) } else { 0 },
         if rng.chance(1, 3) { rng.range(1, 2) } else { 0 },
         if rng.chance(1, 2) { rng.range(1, 3) } else { 0 },
+        if rng.chance(1, 2) { rng.range(1, 3) } else { 0 },
     ];
     let kinds = [
         Kind::Good,
@@ -209,6 +213,7 @@ fn gen_small(rng: &mut Rng, ctx: &GenCtx) -> Plan {
         Kind::ForeignMeta,
         Kind::ForeignOwner,
         Kind::Oversized,
+        Kind::Readdressed,
     ];
     let parents_w = [
         12,
